@@ -23,6 +23,8 @@ class FuncInfo:
                 decs.append(d.attr)
             elif isinstance(d, ast.Call) and isinstance(d.func, ast.Name):
                 decs.append(d.func.id)
+            elif isinstance(d, ast.Call) and isinstance(d.func, ast.Attribute):
+                decs.append(d.func.attr)        # @functools.lru_cache(maxsize=None)
             else:
                 decs.append(ast.dump(d))
         self.decorators = decs
